@@ -12,9 +12,9 @@
    so `j not in basis_set` is modelled by a membership test on `basis`.
    Every value is kept in lowest terms with Qred (a no-op for Qeq; it only keeps vm_compute fast).
 
-   The one deliberate difference from the tree the model was written against: if the inner
-   _phase2 call of _phase1 stops by the iteration limit, the model answers MAX_ITER (the behaviour
-   of the planned fix); the unfixed code reports that situation as INFEASIBLE or carries on. *)
+   The model follows the tree after commit 5868332 ("fix: simplex reports MAX_ITER when phase 1
+   hits the limit"): _phase1 answers MAX_ITER when its inner _phase2 run was cut short with the
+   auxiliary objective still < -eps, INFEASIBLE only when that run ended by itself. *)
 From Coq Require Import List QArith Qabs Bool Arith.
 Import ListNotations.
 Open Scope Q_scope.
@@ -238,17 +238,15 @@ Definition phase1 (eps : Q) (max_iter : nat) (m n : nat) (T : tableau) (basis : 
       let width := length (fst obj1) in                            (* n_cols - 1 *)
       let aux := aux_obj_loop arts basis1 0 rows1 (aux_obj0 width arts) in
       let '(st, iters, T2, basis2, piv2) := phase2 eps max_iter 0 (mkT rows1 aux) basis1 [] in
-      match st with
-      | MAX_ITER => (MAX_ITER, iters, T2, basis2, piv2)            (* behaviour of the fix *)
-      | _ =>
-          if Qltb (snd (t_obj T2)) (- eps) then (INFEASIBLE, iters, T2, basis2, piv2)
-          else
-            let '(T3, basis3, piv3) := drive_out eps arts n_total m 0 (T2, basis2, piv2) in
-            let k := length arts in
-            let rows4 := map (drop_cols k) (t_rows T3) in
-            let obj4 := restore_obj eps basis3 0 rows4 orig_obj in
-            (OPTIMAL, iters, mkT rows4 obj4, basis3, piv3)
-      end
+      if Qltb (snd (t_obj T2)) (- eps) then
+        (* "Artificials still positive: infeasible only if phase 1 was not cut short" *)
+        ((match st with MAX_ITER => MAX_ITER | _ => INFEASIBLE end), iters, T2, basis2, piv2)
+      else
+        let '(T3, basis3, piv3) := drive_out eps arts n_total m 0 (T2, basis2, piv2) in
+        let k := length arts in
+        let rows4 := map (drop_cols k) (t_rows T3) in
+        let obj4 := restore_obj eps basis3 0 rows4 orig_obj in
+        (OPTIMAL, iters, mkT rows4 obj4, basis3, piv3)
   end.
 
 (* ---- def _extract(matrix, basis, m, n, status, iters, minimize) *)
@@ -295,8 +293,7 @@ Definition solve_lp (eps : Q) (minimize : bool) (max_iter : nat)
     | OPTIMAL =>
         let '(st2, iters2, T2, basis2, piv2) := phase2 eps (max_iter - iters) 0 T1 basis1 piv1 in
         extract T2 basis2 n st2 (iters + iters2) minimize piv2
-    | MAX_ITER => mkR MAX_ITER (zeros n) 0 iters piv1 T1 basis1       (* behaviour of the fix *)
-    | _ => mkR INFEASIBLE (zeros n) 0 iters piv1 T1 basis1
+    | _ => mkR st (zeros n) 0 iters piv1 T1 basis1       (* INFEASIBLE or MAX_ITER; objective inf *)
     end
   else
     let '(st2, iters2, T2, basis2, piv2) := phase2 eps max_iter 0 T0 basis0 [] in
